@@ -11,6 +11,7 @@
      C15.lookup     a lookup by frequency(+DR) returns an index whose channel matches
      C15.cflist     CFList = first five eligible custom channels in order / exact enabled masks
      C15.encodable  what the band hands out encodes in the MAC layer and decodes back
+     C13.closed     enabled uplink data-rates stay inside the defined data-rates after channel changes
    Independent part (C14): `plan` events carry the network plan, the device set and the payloads.
      C14.reach / C14.encodable / C14.count / C14.minimal / C14.apply *)
 EXTENDS Integers, Sequences, SequencesExt, FiniteSets, TLC, Json, IOUtils, Bytes, MACCommands, Frame, ChannelPlan
@@ -47,6 +48,11 @@ LookupOK(p, lk) == \A k \in 1..Len(lk) :
      /\ ("def" \in DOMAIN x => p.ul[x.code + 1].cu # x.def)
      /\ ("dr" \in DOMAIN x => p.ul[x.code + 1].min <= x.dr /\ x.dr <= p.ul[x.code + 1].max))
 
+\* C13: the enabled uplink data-rates handed out after channel changes are defined data-rates (asserted when every
+\* channel's own range lies inside the band's defined data-rates; a user-supplied undefined range is DON'T-CARE)
+ClosedOK(p) == LET def == SetOf(p.defdrs) IN
+  (\A k \in 1..Len(p.ul) : p.ul[k].min..p.ul[k].max \subseteq def) => SetOf(p.endrs) \subseteq def
+
 OpFails(e) ==
   LET cs == OpChans(e) IN
   Tag(e.code = OpCode(e), "C15.index")
@@ -54,6 +60,7 @@ OpFails(e) ==
   \o Tag(PartitionOK(e.proj), "C15.partition")
   \o Tag(StandardOK(e.proj), "C15.standard")
   \o Tag(LookupOK(e.proj, e.lookups), "C15.lookup")
+  \o Tag(ClosedOK(e.proj), "C13.closed")
 
 OldVersions == {"1.0.0", "1.0.1", "1.0.2"}
 FreqEncodable(f) == f.r = 0 /\ f.q < 16777216
